@@ -232,6 +232,13 @@ Theorem element_constructed_once : forall L a es, In a L -> ev_run L (ECons a ::
 Proof. exact ev_no_double_construct. Qed.
 Print Assumptions element_constructed_once.
 
+(* emplace_back(args...) constructs from constructor arguments (direct-initialisation): a distinct
+   event with the same rule - only in a slot that is not alive.  That the element so constructed is
+   T(args...) is the harness oracle (a std::vector twin with the default allocator) *)
+Theorem element_constructed_from_arguments_once : forall L a es, In a L -> ev_run L (EArgs a :: es) = None.
+Proof. exact ev_no_double_construct_args. Qed.
+Print Assumptions element_constructed_from_arguments_once.
+
 Theorem element_destroyed_once : forall L a es, ~ In a L -> ev_run L (EDest a :: es) = None.
 Proof. exact ev_no_double_destroy. Qed.
 Print Assumptions element_destroyed_once.
@@ -350,12 +357,13 @@ Example lifetime_history_example :
   let step := fun s o => snd (vs_step _ bump_malloc bump_free false 32 (gnu_vmax 32) (gnu_grow 32) s o) in
   let s0 := vs_init _ {| bs_cur := BASE; bs_fail := -1 |} in
   let ops := [VPush false 1; VPush false 2; VPush false 3; VPush false 4; VPush false 5;
-              VSwap; VPush false 9; VShrink true; VAssign false 3 9; VResize true 2 0; VClear false] in
+              VSwap; VPush false 9; VEmplaceBack false 1101; VEmplaceBack true 1102; VShrink true; VAssign false 3 9;
+              VResize true 2 0; VClear false] in
   let s := vs_run _ bump_malloc bump_free false 32 (gnu_vmax 32) (gnu_grow 32) s0 ops in
   let es := vs_events step (s_a _) (s_b _) 32 s0 ops in
   let bye := map EDest (slots (v_data (s_a _ s)) 32 0 (v_size (s_a _ s))) ++
              map EDest (slots (v_data (s_b _ s)) 32 0 (v_size (s_b _ s))) in
   option_map (@length Z) (ev_run [] es) = Some 2%nat /\
   ev_run [] (es ++ bye) = Some [] /\
-  length es = 40%nat.
+  length es = 48%nat.
 Proof. vm_compute. repeat split; reflexivity. Qed.
